@@ -36,7 +36,7 @@ for p in props:
         na.append(dict(property_id=pid, reason=NOT_YET.get(pid, "contracts for this property are not built yet in this tree (work in progress); no check is claimed")))
 m = dict(
     version=1,
-    setup_cmd="python3-vt -m pyvc.selftest",
+    setup_cmd="python3-vt -m pyvc.selftest && python3-vt -m pyvc.difftest",
     hooks=dict(guard="MLINSIGHTS_VERIF", enable="no source hooks are needed: the verifier reads /repo's source, replays run in a scratch overlay copy",
                baseline_off_cmd=PINNED, source_commits=[], add_only=True),
     engines=[dict(name="pyvc", path="pyvc/", serves_properties=sorted(CLAIMED),
